@@ -149,6 +149,24 @@ def kf4_signature(t):
     return False
 
 
+def model_predictions(ctx, layouts):
+    """BalanceBlock.tla's own result (the model contains the known defects) for the given layouts:
+    {id: set of predicted trash sets (one per tie order)}."""
+    import re
+    ctx.nrun += 1
+    lp = os.path.join(ctx.scratch, "layouts%d.ndjson" % ctx.nrun)
+    vlib.write_ndjson(lp, layouts)
+    r = ctx.tlc(SD, "BalanceBlock", "Predict_BalanceBlock.cfg", env={"VERIF_LAYOUTS": lp}, workers=1, timeout=2400,
+                count=False, must_pass=False)
+    if not r.ok:
+        raise vlib.InfraError("BalanceBlock prediction run failed (rc=%d):\n%s" % (r.rc, r.tail(40)))
+    pred = {}
+    for m in re.finditer(r'<<"PREDICT", (\d+), \{([^}]*)\}, \{([^}]*)\}, (TRUE|FALSE)>>', r.out):
+        tr = frozenset(int(x) for x in m.group(2).replace(" ", "").split(",") if x)
+        pred.setdefault(int(m.group(1)), set()).add(tr)
+    return pred
+
+
 def judge_all(ctx, events, by_id):
     """One TLC run reports every rejected event; each rejection is classified by vlib (known finding or
     VIOLATION).  Before that the rejected traces are judged again under the two counting variants of the
@@ -156,7 +174,10 @@ def judge_all(ctx, events, by_id):
       permount_ok    the whole trace is accepted when every mount counts as its own device   (KF-C05-1)
       classblind_ok  the whole trace is accepted when every mount counts for every class     (KF-C05-4)
       both_ok        accepted with both relaxations at once (a layout where both defects combine)
-      kf4_sig        structural signature of KF-C05-4"""
+      kf4_sig        structural signature of KF-C05-4
+      model_same     the real code computed exactly the trash set that BalanceBlock.tla (the model of the
+                     unmutated algorithm, known defects included) predicts for this layout under some
+                     tie order: the CAUSE is the known algorithm, not something else with the same outcome"""
     traces = vlib.split_traces(events)
     rej = rejected_traces(traces, run_judge(ctx, events, "Judge_Balance.cfg"))
     if rej:
@@ -165,6 +186,7 @@ def judge_all(ctx, events, by_id):
         bad_pm = set(i for i, off in rejected_traces(sub, run_judge(ctx, flat, "Judge_Balance_permount.cfg")))
         bad_cb = set(i for i, off in rejected_traces(sub, run_judge(ctx, flat, "Judge_Balance_classblind.cfg")))
         bad_both = set(i for i, off in rejected_traces(sub, run_judge(ctx, flat, "Judge_Balance_both.cfg")))
+        pred = model_predictions(ctx, [{"id": j + 1, "lay": t[0]["lay"]} for j, t in enumerate(sub)])
     for j, (i, off) in enumerate(rej):
         if len(ctx.violations) >= 25:
             ctx.log("judge: 25 violations, not classifying the remaining rejections")
@@ -175,6 +197,7 @@ def judge_all(ctx, events, by_id):
         ev["classblind_ok"] = j not in bad_cb
         ev["both_ok"] = j not in bad_both
         ev["kf4_sig"] = kf4_signature(t)
+        ev["model_same"] = frozenset(e["m"] for e in t if e["ev"] == "trash") in pred.get(j + 1, set())
         if os.environ.get("VERIF_DEBUG"):
             print("REJECTED", off, json.dumps(t))
         ctx.classify({"trace": t, "offset": off, "why": "event not allowed by the contract"}, by_id)
@@ -256,8 +279,9 @@ def run(ctx):
     ctx.extra["rejected_traces"] = nrej
     ctx.extra["distinct_nontrivial"] = len(nontrivial)
     ctx.rule = ("scenarios = every layout BalanceBlock.tla can build within the Gen bounds, simulated layouts of a "
-                "wider space, five hand-written layouts and seeded random layouts of up to 16 servers x 1-2 mounts; "
-                "non-trivial = at least one trash or pull request or a lost block; distinct by the complete layout")
+                "wider space, %d hand-written layouts and seeded random layouts of up to 16 servers x 1-2 mounts; "
+                "non-trivial = at least one trash or pull request or a lost block; distinct by the complete layout"
+                % len(hand_scenarios()))
     ctx.samples = [{"scenario": by_id.get(t[0]["scn"]), "trace": t} for t in traces[200:201] + traces[-2:]]
     ctx.trusted_base = ["layout -> Balancer concretiser and changeset -> event abstraction in the driver",
                         "server numbering by the real keepclient.NewRootSorter order",
